@@ -43,8 +43,14 @@ type Or struct {
 func (f *Or) Call(s *slip.Scope, args slip.List, depth int) (result slip.Object) {
 	result = nil
 	d2 := depth + 1
+	last := len(args) - 1
 	for i := range args {
-		if result = slip.EvalArg(s, args, i, d2); result != nil {
+		result = slip.EvalArg(s, args, i, d2)
+		if i < last {
+			// Only the last form passes on multiple values.
+			result = slip.PrimaryValue(result)
+		}
+		if result != nil {
 			break
 		}
 	}
